@@ -48,6 +48,14 @@ class Machine:
         self.depth = 0
         self.fired = 0
         self.configs = set()
+        # exception semantics (used by R-C10-7): a MachineError / setter error aborts the running chain; the configuration
+        # reached so far stays and is collected in `raised`
+        self.raise_mode = False
+        self.raised = set()
+
+    def throw(self, cfg):
+        self.raised.add(cfg)
+        return set()
 
     def problem(self, key, wh, msg):
         if (key, wh) not in {(k, w) for k, w, _m in self.problems}:
@@ -74,7 +82,7 @@ class Machine:
             return {cfg}
         if not es:
             self.problem(f'{site}', wh, f'{trig}() is fired in state {state}, where it is not allowed (sources: {sorted(e.get("source") for e in self.by_trigger[trig])}): the library raises MachineError')
-            return {cfg}
+            return self.throw(cfg) if self.raise_mode else {cfg}
         self.depth += 1
         if self.depth > 40:
             self.depth -= 1
@@ -112,6 +120,8 @@ class Machine:
         func = normalised(self.prog, func)  # newly extracted helpers (e.g. a shared "defer this step" method) are analysed in place
         ex = _Exec(self, func)
         o = ex.run(func.node, cfg)
+        if self.raise_mode:
+            return o.normal | o.ret
         return (o.normal | o.ret) or {cfg}
 
     def settle(self, cfgs):
@@ -131,13 +141,19 @@ class Machine:
             if not pend:
                 out.add(c)
                 continue
+            self.inter = getattr(self, 'inter', set())
+            self.inter.add(c)  # the reactor is free here while a background step is outstanding
             q = pend[0]
             f = self.prog.funcs.get(q)
             rest = (state, trans, prior, pend[1:], dt)
             if f is None:
                 todo.append(rest)
             else:
+                r0 = set(self.raised)
                 todo.extend(self.run(f, rest))
+                # an exception inside a deferred step is swallowed at the Deferred boundary (errback logs): the
+                # configuration reached when it was raised stays, later steps still run
+                todo.extend(self.raised - r0)
         return out
 
 
@@ -206,6 +222,8 @@ class _Exec(Flow):
                 new = norm(s.value).rsplit('.', 1)[-1]
                 if new in ('entering', 'exiting') and trans not in ('active', '?'):
                     self.m.problem(self._site(s), where(self.f, s), f'transitioning is set to {new} while it is {trans} (state {state}): the setter raises MachineError and the chain stops here')
+                    if self.m.raise_mode:
+                        return tuple(self.m.throw(st))
                 return ((state, new, prior, pend, dt),)
             if isinstance(t, ast.Attribute) and t.attr.endswith('__prior') and self._fsm_expr(t.value):
                 v = s.value
@@ -228,7 +246,7 @@ class _Exec(Flow):
             if isinstance(name, ast.BinOp) and isinstance(name.right, ast.Constant) and name.right.value == '_trigger' and isinstance(name.left, ast.Attribute) and name.left.attr.endswith('__prior'):
                 if prior in ('?', None):
                     self.m.problem(self._site(call), where(self.f, call), 'the computed trigger <prior>_trigger is fired while no prior state was saved (save_prior_state did not run on the edge into archiving)')
-                    return (st,)
+                    return tuple(self.m.throw(st)) if self.m.raise_mode else (st,)
                 return tuple(self.m.fire(st, prior + '_trigger', self._site(call), where(self.f, call)))
             self.m.problem(self._site(call), where(self.f, call), f'computed trigger name {norm(name)} not understood')
             return (st,)
@@ -524,6 +542,87 @@ def rule234(ctx, rep, M):
                 r4.check(e.get('dest') not in REST, f'state.dot:{e.src}->{e.dst}:deferred-after', f'pl/state.dot:{e.line}', 'deferred step on an edge into a non-rest state', f'after={cb} defers work but the edge enters the rest state {e.get("dest")}: external triggers would be accepted while the step is outstanding')
 
 
+def _first_effect(fn):
+    """first statement of a method that is not a docstring / print / log call"""
+    for st in fn.node.body:
+        if isinstance(st, ast.Expr) and isinstance(st.value, ast.Constant):
+            continue
+        if isinstance(st, ast.Expr) and isinstance(st.value, ast.Call) and (call_name(st.value) in ('print', 'debug', 'info', 'warning') or norm(st.value).startswith('log.')):
+            continue
+        return st
+    return None
+
+
+def rule7(ctx, rep, M):
+    """triggers that arrive while a background step is outstanding (the quantifier of the property: every sequence of
+    triggers from every reachable state, steps completing in every order relative to later triggers).  Added after seeded
+    change C10-4, which removed the exiting/active flip from FSM.reset: that flip is what refuses a refresh while the
+    reload is still running."""
+    with rep.rule(
+        'R-C10-7',
+        'while a background step is outstanding every trigger of the machine is either refused before any effect (the before-callback of its edge starts with the transitioning setter, which raises unless active) or, if accepted, the machine still settles at rest once all steps completed',
+        floor=6,
+        breaks='a trigger arriving during load / reload / archive / introspection is accepted, the outstanding step then fires its own continuation from the wrong state (MachineError) and the pipeline never declares itself active again',
+    ) as r:
+        def _is_step(q):
+            # the background steps of the property are load / reload / archive / introspection; the submit pollers
+            # (wait_for_* / is_*_done) are covered by R-C10-2 at their completion callbacks
+            fn = ctx.prog.funcs.get(q)
+            return not (fn is not None and (fn.name.startswith('is_') or (fn.parent is not None and fn.parent.name.startswith('wait_for_'))))
+
+        inter = sorted((c for c in getattr(M, 'inter', set()) if all(_is_step(q) for q in c[3])), key=str)
+        if not inter:
+            raise AnalysisError('no configuration with an outstanding background step was reached by the exploration')
+        verdicts = {}
+        for c in inter:
+            state, trans, prior, pend, dt = c
+            for trig in sorted(M.by_trigger):
+                es = [e for e in M.by_trigger[trig] if e.get('source') == state]
+                if not es:
+                    continue
+                e = es[0]
+                P = Machine(ctx, None)
+                P.firing = M.firing
+                P.raise_mode = True
+                cfgs = {c}
+                bcb = e.get('before')
+                key = (state, trans, trig)
+                v = verdicts.setdefault(key, {'line': e.line, 'bad': []})
+                if bcb:
+                    cfgs = P.callback(cfgs, bcb, f'before={bcb} of {e.src}->{e.dst}')
+                    if P.raised:
+                        # refused by the before-callback: the raise must be its first effect
+                        meth = P.method(bcb)
+                        fe = _first_effect(meth) if meth is not None else None
+                        clean = fe is not None and isinstance(fe, ast.Assign) and any(isinstance(t, ast.Attribute) and t.attr == 'transitioning' for t in fe.targets)
+                        if not clean:
+                            v['bad'].append(f'refused by before={bcb}, but only after other statements of that callback already ran')
+                        if not cfgs:
+                            continue
+                cfgs = {(e.get('dest'), t, p_, pd, d5) for (_s, t, p_, pd, d5) in cfgs}
+                acb = e.get('after')
+                if acb:
+                    r0 = set(P.raised)
+                    cfgs = P.callback(cfgs, acb, f'after={acb} of {e.src}->{e.dst}')
+                    late = P.raised - r0
+                    if late:
+                        v['bad'].append(f'accepted (no refusing before-callback on {e.src}->{e.dst}): the state changes to {e.get("dest")} and then after={acb} raises ({P.problems[-1][2][:120]})')
+                    cfgs |= late
+                finals = P.settle(cfgs)
+                notrest = sorted({(s_, t) for (s_, t, _p, pd, _d) in finals if s_ not in REST or t != 'active' or pd})
+                if notrest:
+                    v['bad'].append(f'accepted on {e.src}->{e.dst}; once every outstanding step completed the machine is left in {notrest} (state, transitioning), not at rest')
+        for (state, trans, trig), v in sorted(verdicts.items()):
+            r.instance()
+            r.check(
+                not v['bad'],
+                f'machine:{state}/{trans}.{trig}:while-step-outstanding',
+                f'pl/state.dot:{v["line"]}',
+                'refused before any effect, or settles at rest',
+                f'{trig} arriving in {state} while transitioning is {trans} (a background step is outstanding) is ' + v['bad'][0] if v['bad'] else '',
+            )
+
+
 def rule5(ctx, rep):
     prog = ctx.prog
     f = prog.func(FSM + '.is_pipeline_active')
@@ -561,6 +660,75 @@ def rule5(ctx, rep):
         r.check(ok, f'{f.qname}:predicate', where(f), 'truth table equals running AND active', 'is_pipeline_active is not the conjunction of state == running and transitioning == active')
 
 
+def rule6(ctx, rep):
+    """the archive continuation is always delivered (added after seeded change C10-3: db/post ArchiveHandler.processEnded
+    called the completion callback only when pg_dump ended cleanly; after a failed dump the FSM stayed in archiving)"""
+    prog = ctx.prog
+    with rep.rule(
+        'R-C10-6',
+        'every implementation of db.archive(done) delivers the continuation exactly once on every normal path: it calls done() itself or hands it to a process handler whose processEnded calls it on every path',
+        floor=2,
+        breaks='the archiving state is never left (no _archive_done): the pipeline does not return to rest after a failed or unusual archive run',
+    ) as r:
+        impls = [prog.funcs[q] for q in sorted(prog.funcs) if q in ('dawgie.db.shelve.archive', 'dawgie.db.post.archive')]
+        if len(impls) != 2:
+            raise AnalysisError('db.archive implementations (shelve, post) not found')
+        for raw in impls:
+            f = prog.nfunc(raw.qname)
+            rep.analysed(f)
+            if not f.params():
+                raise AnalysisError(f'{f.qname} takes no continuation parameter')
+            done = f.params()[0]
+            delegates = []
+
+            class Del(Flow):
+                def on_call(s, call, st):
+                    if isinstance(call.func, ast.Name) and call.func.id == done:
+                        return (min(st + 1, 2),)
+                    if any(isinstance(a, ast.Name) and a.id == done for a in list(call.args) + [k.value for k in call.keywords]):
+                        sym = prog.resolve_in(call.func, f)
+                        delegates.append((call, sym))
+                        return (min(st + 1, 2),)
+                    return (st,)
+
+            fl = Del()
+            out = fl.run(f.node, 0)
+            exits = out.normal | out.ret
+            r.instance()
+            r.check(exits == {1}, f'{f.qname}:continuation-delivered', where(f), 'done() called (or handed on) exactly once on every normal path', f'{f.qname} can return after delivering the continuation {sorted(exits)} times')
+            for call, sym in delegates:
+                c = prog.classes.get(sym) if sym else None
+                r.instance()
+                if c is None:
+                    r.fail(f'{f.qname}:{norm(call)[:60]}:delegate', where(f, call), f'{f.qname} hands the continuation to {norm(call.func)}, which the analysis cannot follow')
+                    continue
+                init = c.methods.get('__init__')
+                pos = [i for i, a in enumerate(call.args) if isinstance(a, ast.Name) and a.id == done]
+                attr = None
+                if init is not None and pos and len(init.params()) > pos[0] + 1:
+                    pname = init.params()[pos[0] + 1]
+                    for s_ in init.own_nodes():
+                        if isinstance(s_, ast.Assign) and isinstance(s_.value, ast.Name) and s_.value.id == pname and isinstance(s_.targets[0], ast.Attribute):
+                            attr = s_.targets[0].attr
+                ended = c.methods.get('processEnded')
+                if attr is None or ended is None:
+                    r.fail(f'{c.qname}:stores-and-calls-continuation', where(init or f), f'{c.qname} does not keep the continuation in an attribute / has no processEnded')
+                    continue
+                g = prog.nfunc(ended.qname)
+                rep.analysed(g)
+
+                class Cnt(Flow):
+                    def on_call(s, cl, st):
+                        fn = cl.func
+                        if isinstance(fn, ast.Attribute) and fn.attr == attr and isinstance(fn.value, ast.Name) and fn.value.id == 'self':
+                            return (min(st + 1, 2),)
+                        return (st,)
+
+                o2 = Cnt().run(g.node, 0)
+                ex2 = o2.normal | o2.ret
+                r.check(ex2 == {1}, f'{g.qname}:continuation-delivered', where(g), f'self.{attr}() called exactly once on every normal path', f'{g.qname} can return after calling the archive continuation {sorted(ex2)} times: with 0 the FSM never leaves archiving')
+
+
 def check(ctx):
     rep = Report(
         PID,
@@ -579,11 +747,19 @@ def check(ctx):
     M.firing = _firing_methods(ctx)
     rule1(ctx, rep, M)
     rule234(ctx, rep, M)
+    rule7(ctx, rep, M)
     rule5(ctx, rep)
+    rule6(ctx, rep)
     return rep
 
 
 VARIANTS = [
+    V('reset no longer refuses while a reload is outstanding', 'B', 'pl/state.py', 'FSM.reset', 'self.transitioning = Status.exiting\n        self.wait_on_crew.set()\n        self.wait_on_doing.set()\n        self.wait_on_todo.set()\n        self.priority = None\n        self.transitioning = Status.active', 'self.wait_on_crew.set()\n        self.wait_on_doing.set()\n        self.wait_on_todo.set()\n        self.priority = None', 'R-C10-7'),
+    V('guard dropped from the introspect edge', 'B', 'pl/state.dot', None, 'before=step_is_done,\n                                 after=navel_gaze', 'after=navel_gaze', 'R-C10-7'),
+    V('save_prior_state records before it refuses', 'B', 'pl/state.py', 'FSM.save_prior_state', 'self.transitioning = Status.exiting\n        self.__prior = self.state', 'self.__prior = self.state\n        self.transitioning = Status.exiting', 'R-C10-7'),
+    V('run edge out of archiving guarded too', 'N', 'pl/state.dot', None, 'source=archiving,\n                             dest=running];', 'source=archiving,\n                             dest=running,\n                             before=step_is_done];', None),
+    V('failed pg_dump never reports the archive as finished', 'B', 'db/post/__init__.py', 'ArchiveHandler.processEnded', 'pass\n\n        self.__done()', 'pass\n        else:\n            self.__done()', 'R-C10-6'),
+    V('shelve archive forgets the continuation', 'B', 'db/shelve/__init__.py', 'archive', 'done()', 'pass', 'R-C10-6'),
     V('extra edge loading->running', 'B', 'pl/state.dot', None, 'contemplation -> running[label=run,', 'loading -> running[label=skip, trigger=running_trigger, source=loading, dest=running];\n        contemplation -> running[label=run,', 'R-C10-1'),
     V('save_prior_state dropped from idle archive', 'B', 'pl/state.dot', None, 'after=archive,\n                             before=save_prior_state,', 'after=archive,', 'R-C10-1'),
     V('load.done without active', 'B', 'pl/state.py', 'FSM.load', 'self.transitioning = Status.active\n            self.contemplation_trigger()', 'self.contemplation_trigger()', 'R-C10-3'),
